@@ -48,6 +48,8 @@ func c17Versions(r *RNG) []c17Version {
 		sb.WriteString("type T struct {\n\tN int\n\tTag string\n}\n\n")
 		sb.WriteString("func Bump() {\n\tCount++\n\tTotal += 1.5\n}\n\nfunc SetMode(s string) {\n\tMode = s\n}\n\n")
 		sb.WriteString("func (t *T) Inc() int {\n\tt.N++\n\treturn t.N\n}\n\n")
+		// instances created AFTER a (re)load, formatted: the struct prototypes survive reloads and must not change
+		sb.WriteString("type Pair struct {\n\tX int\n\tY string\n\tIn *Sq\n}\n\nfunc Show(k int) {\n\tprintln(&T{N: k, Tag: \"s\"}, &Sq{S: k}, &Pair{X: k, Y: \"y\", In: &Sq{S: 1}}, &Pair{X: k})\n}\n\n")
 		nfk := nf
 		if k > 0 && r.Intn(3) == 0 {
 			nf++ // a later version adds a function
@@ -237,6 +239,14 @@ func (c *Ctx) c17History() (lines, impl, want []string, script []string, fatal s
 					emit("rl name "+n, eval(fmt.Sprintf("println(lib.%s())", n)), spec[n])
 				}
 			}
+			// a fresh instance of every struct type, formatted by code of the current version
+			k := r.Intn(50)
+			gotShow := eval(fmt.Sprintf("lib.Show(%d)", k))
+			wantShow := fmt.Sprintf("&{N:%d Tag:s} &{S:%d} &{X:%d Y:y In:&{S:1}} &{X:%d Y: In:nil}", k, k, k, k)
+			c.Rep.Oracle["fresh-instance-format"]++
+			if gotShow != wantShow && fatal == "" {
+				c.Rep.Violate(Violation{Kind: "oracle", Cut: "fresh-instance-format", Input: append([]string{}, script...), Impl: gotShow, Oracle: wantShow})
+			}
 			c.Rep.Count("call-all")
 		case op < 82: // mutate package state
 			switch r.Intn(3) {
@@ -298,7 +308,7 @@ func sortedStrings(a []string) []string {
 }
 
 func runC17(c *Ctx) error {
-	c.Rep.Rule = "reload: one VM per history; 2..5 versions of a package with 1..5 functions and 1..3 methods whose bodies change, stay the same, appear in a later version or are left out of one; 8..37 steps of Load(version k) / Eval with an explicit import (reload of the current version, also of unchanged source) / capture of a function in a variable, a struct field, a slice element, of a bound method and of a bound method inside a struct field / new instance / call of everything captured and of every function and method by name / Bump, SetMode, instance Inc / read of the package variables (two without initialiser, two with); distinct = distinct history; non-trivial = at least two loads and one capture"
+	c.Rep.Rule = "reload: one VM per history; 2..5 versions of a package with 1..5 functions and 1..3 methods whose bodies change, stay the same, appear in a later version or are left out of one; 8..37 steps of Load(version k) / Eval with an explicit import (reload of the current version, also of unchanged source) / capture of a function in a variable, a struct field, a slice element, of a bound method and of a bound method inside a struct field / new instance / call of everything captured and of every function and method by name / creation and formatting of fresh instances of every struct type by the current code / Bump, SetMode, instance Inc / read of the package variables (two without initialiser, two with); distinct = distinct history; non-trivial = at least two loads and one capture"
 	n := 60
 	if c.Thorough() {
 		n = 20000
